@@ -29,6 +29,16 @@ pub fn comp_from_name(s: &str) -> Compression {
         _ => Compression::Unknown,
     }
 }
+pub fn comp_from_code(c: u8) -> Compression {
+    match c {
+        1 => Compression::None,
+        2 => Compression::GZip,
+        3 => Compression::Brotli,
+        4 => Compression::ZStd,
+        _ => Compression::Unknown,
+    }
+}
+
 pub fn comp_code(c: Compression) -> u8 {
     match c {
         Compression::Unknown => 0,
